@@ -6,8 +6,10 @@ Generated/facts_report.json resp. xlate_report.json with the Lean names it defin
 (extract/sections.go, extract/cmd/xlate/merge.go).  Such a failure is a broken obligation of a
 property iff the property is built from one of those names:
 
-  some Lean file in the transitive import closure of the property's module (import lines
-  under lean/Mqtt; the generated files themselves excluded) mentions one of the names as a
+  some Lean file in the transitive import closure of the property's modules - the main module
+  Mqtt.Properties.Cxx and, where it exists, the source-tie module Mqtt.Properties.CxxSource,
+  which nothing else imports (import lines under lean/Mqtt; the generated files themselves
+  excluded) - mentions one of the names as a
   whole word - `Mqtt.Generated.x`, `Generated.x`, or bare `x` after an `open` (for translated
   functions the name relative to Mqtt.Generated.Xlate, e.g. `Service.service.peekMessageSize`).
 
@@ -70,6 +72,19 @@ def import_closure(module):
     return seen
 
 
+def closure_of(modules):
+    """import closure of a property: of its main module and of its source-tie module(s) (one module name or a list),
+    in discovery order, each module once.  The theorems tying the models to the regenerated translation live in
+    Properties/CxxSource.lean, which only Cxx's check builds: a function that could not be translated therefore
+    concerns Cxx through that module and no property that merely imports Properties/Cxx.lean."""
+    seen = []
+    for module in ([modules] if isinstance(modules, str) else modules):
+        for m in import_closure(module):
+            if m not in seen:
+                seen.append(m)
+    return seen
+
+
 def relative_name(lean_def):
     for p in ('Mqtt.Generated.Xlate.', 'Mqtt.Generated.'):
         if lean_def.startswith(p):
@@ -77,8 +92,9 @@ def relative_name(lean_def):
     return lean_def
 
 
-def first_mention(module, lean_defs):
-    """(module, name) of the first mention of one of the names in the property's import closure, or None"""
+def first_mention(modules, lean_defs):
+    """(module, name) of the first mention of one of the names in the property's import closure (main module and
+    source-tie module, `closure_of`), or None"""
     for home in ('Mqtt.Generated.Xlate', 'Mqtt.Generated.Facts'):   # Xlate first: its prefix contains the other
         mine = [d for d in lean_defs if d.startswith(home[:-len('.Facts')] + '.' if home.endswith('.Facts') else home + '.')]
         lean_defs = [d for d in lean_defs if d not in mine]
@@ -86,7 +102,7 @@ def first_mention(module, lean_defs):
         if not names:
             continue
         rx = re.compile(r"(?<![%s])(?:%s)(?![%s])" % (_WORD, '|'.join(re.escape(n) for n in names), _WORD))
-        for m in import_closure(module):
+        for m in closure_of(modules):
             if m in GENERATED or home not in import_closure(m):
                 continue
             hit = rx.search(_source[m])
@@ -118,15 +134,16 @@ def obligation_name(fl):
     return 'regenerated translation: %s (%s)' % (fl['name'], fl['message'])
 
 
-def judge(module, failures):
-    """splits the failures into obligations of the property and notes.
+def judge(modules, failures):
+    """splits the failures into obligations of the property (modules: its main module, or the list main + source-tie
+    modules = Prop.modules) and notes.
     returns (broken, notes): broken = [(obligation name, detail)], notes = [text] (one per failure)"""
     broken, notes = [], []
     for fl in failures:
         what = ('section %s of the fact extractor' % fl['name']) if fl['kind'] == 'facts' else \
                ('function %s of the translator whitelist' % fl['name'])
         names = ', '.join(relative_name(d) for d in fl['lean_defs'][:6]) + (', …' if len(fl['lean_defs']) > 6 else '')
-        hit = first_mention(module, fl['lean_defs'])
+        hit = first_mention(modules, fl['lean_defs'])
         if hit:
             where = '%s mentions %s' % (hit[0], hit[1])
             broken.append((obligation_name(fl),
